@@ -23,7 +23,17 @@ class C08(Prop):
     title = 'Script building, tokenising, number codec and classification predicates'
     lean_targets = ['BtcVerif.Props.C08']
     table_groups = []
-    theorems = ['BtcVerif.C08.' + t for t in ()]
+    theorems = ['BtcVerif.C08.' + t for t in (
+        'numDecode_numEncode', 'numEncode_minimal', 'numEncode_numDecode_of_minimal', 'bn2vch_eq_spec',
+        'vch2bn_eq_spec', 'bn2vch_defined', 'vch2bn_bn2vch', 'bn2vch_minimal', 'bn2vch_vch2bn_of_minimal',
+        'bn2vch_injective', 'build_eq_spec', 'build_fails_iff', 'add_eq_spec', 'build_minimal_small_int',
+        'build_minimal_int', 'build_minimal_data', 'build_data_form', 'build_defined', 'iter_build',
+        'build_iter_build', 'raw_iter_partition', 'raw_iter_concat', 'raw_iter_error', 'raw_iter_eq_spec',
+        'cooked_error_is_invalidscript', 'pred_eq_spec_p2sh', 'pred_eq_spec_witness_program',
+        'pred_eq_spec_witness_version', 'pred_eq_spec_v0_keyhash', 'pred_eq_spec_v0_scripthash',
+        'pred_eq_spec_v0_nested_keyhash', 'pred_eq_spec_v0_nested_scripthash', 'pred_eq_spec_push_only',
+        'pred_eq_spec_canonical_pushes', 'pred_eq_spec_valid', 'pred_eq_spec_unspendable', 'sigops_eq_spec',
+        'sigops_accurate_le_legacy')]
     anchors = [(SCRIPT, 'CScriptOp.encode_op_pushdata'), (SCRIPT, 'CScriptOp.encode_op_n'),
                (SCRIPT, 'CScriptOp.decode_op_n'), (SCRIPT, 'CScriptOp.is_small_int'),
                (SCRIPT, 'CScriptOp.__new__'),
